@@ -38,7 +38,10 @@ def _site(depth=2):
 class SymRng:
     """rng.choice explores every element of positive probability."""
 
-    def __init__(self, zero_threshold=0, on_choice=None, check_sum=True):
+    def __init__(self, zero_threshold=0, on_choice=None, check_sum=True, forced=None):
+        # forced: indices the first len(forced) choice calls must take (sharding of the exploration: the shards for all
+        # index combinations partition the paths); an index that is out of range or has probability zero ends the shard
+        self.forced = list(forced or [])
         self.calls = []
         self.zero_threshold = zero_threshold
         self.on_choice = on_choice
@@ -86,6 +89,10 @@ class SymRng:
                     raise core.emulated(ValueError("probabilities do not sum to 1"))
             thr = self.zero_threshold
             conds = [x > thr for x in pv]
+        k = len(self.calls)
+        if k < len(self.forced):
+            f = self.forced[k]
+            conds = [cd if j == f else False for j, cd in enumerate(conds)]
         i = c.choose(conds, label="rng.choice")
         rec.index = i
         self.calls.append(rec)
